@@ -103,7 +103,11 @@ class Seq(object):
     self.fake = fakereactor.FakeReactor()
     self.fake.transport_hw = getattr(ns, 'transport_hw', None)
     client.reactor = self.fake
+    client.time = lambda: 1.0e9 + self.fake.seconds()      # lastResetTime / MIN_RESET_INTERVAL on the virtual clock
     instrumentation.stats.clear()
+    instrumentation.prior_stats.clear()
+    self.stat_base = {}        # counters moved out of instrumentation.stats by the periodic recordMetrics()
+    self.resets_seen = {}
     state.metricReceiversPaused = False
     state.cacheTooFull = False
     old = state.client_manager
@@ -298,6 +302,13 @@ class Seq(object):
     for c in list(self.fake.connectors):
       if c.state == 'connected' and c.transport is not None and c.transport.disconnecting:
         f = c.factory
+        # a close requested by the connection quality monitor (USE_RATIO_RESET) is not the orderly stop's close
+        rkey = 'destinations.%s.slowConnectionReset' % f.destinationName
+        nres = self.stat(rkey)
+        if nres > self.resets_seen.get(rkey, 0):
+          self.resets_seen[rkey] = nres
+          self.closed_by_harness.add(id(c))
+          self.counters['quality_resets_observed'] = self.counters.get('quality_resets_observed', 0) + 1
         if self.stopped and len(f.queue) > 0 and id(c) not in self.closed_by_harness:
           self.viol('stop/closed-with-queue', 'destination %s closed by an orderly stop while %d datapoints were still queued' % (
             self._fname(f.destination), len(f.queue)))
@@ -321,6 +332,7 @@ class Seq(object):
     self.nid += 1
     self.counters['arrivals'] += 1
     name = 'id%d' % self.nid
+    self.instr.increment('metricsReceived')      # what the listener (played by the harness) counts for every datapoint
     self.events.metricReceived(name, (self.nid, float(self.nid)))
 
   def ev_fill(self, i):
@@ -375,6 +387,25 @@ class Seq(object):
     if hasattr(c.transport, 'flush'):
       c.transport.flush()          # the socket buffer drained
     c.protocol.resumeProducing()
+
+  def ev_stats(self, i):
+    """The InstrumentationService's periodic tick: real recordMetrics() (rolls the counters over into prior_stats, which the
+    connection quality monitor reads); the relay's self-metrics it generates are not injected into this sequence."""
+    if self.stopped:
+      return False
+    for k, v in list(self.instr.stats.items()):
+      if isinstance(v, (int, float)):
+        self.stat_base[k] = self.stat_base.get(k, 0) + v
+    handlers = self.events.metricGenerated.handlers[:]
+    del self.events.metricGenerated.handlers[:]
+    try:
+      self.instr.recordMetrics()
+    finally:
+      self.events.metricGenerated.handlers[:] = handlers
+    self.counters['stats_ticks'] = self.counters.get('stats_ticks', 0) + 1
+
+  def stat(self, k):
+    return self.stat_base.get(k, 0) + self.instr.stats.get(k, 0)
 
   def ev_adv_defer(self, i):
     self.fake.advance(self.settings.TIME_TO_DEFER_SENDING)
@@ -465,10 +496,10 @@ class Seq(object):
       if len(q) > self.cap + hp_in_q:
         self.viol('queue/bound', '%s: queue size %d exceeds hard limit %s (+%d self-metrics)' % (key, len(q), self.hard, hp_in_q))
       # counters
-      sent = stats.get('destinations.%s.sent' % f.destinationName, 0)
+      sent = self.stat('destinations.%s.sent' % f.destinationName)
       if sent != len(wid):
         self.viol('counter/sent', '%s: sent counter %d but %d datapoints on the wire' % (key, sent, len(wid)))
-      drops = stats.get(f.fullQueueDrops, 0)
+      drops = self.stat(f.fullQueueDrops)
       nref = sum(1 for e in ents if e['outcome'] == 'refused')
       if drops != nref:
         self.viol('counter/fullQueueDrops', '%s: fullQueueDrops %d but %d refusals observed' % (key, drops, nref))
